@@ -327,9 +327,29 @@ class C20(Prop):
         prog.append({"name": "root", "nodes": top, "bound": []})
         return prog
 
+    @staticmethod
+    def _end_gates_two_levels(rng: random.Random) -> list[dict]:
+        """An END-routing gate at the top level AND one inside a nested graph (one or two levels down): END edges come from gates that are
+        visible in the state, never from gates hidden inside a collapsed container."""
+        def gated(prefix: str, src: str) -> list[dict]:
+            return [{"name": f"{prefix}gate", "kind": "ifelse", "params": [[src, None]], "targets": [f"{prefix}t", "__END__"], "body": {"b": "lt", "k": 2}, "defaultOpen": True},
+                    {"name": f"{prefix}t", "kind": "fn", "params": [[src, None]], "dataOuts": [f"{prefix}o"], "body": {"b": "tag", "t": f"{prefix}t"}}]
+        prog = [{"name": "inner", "nodes": gated("i_", "x"), "bound": []}]
+        if rng.random() < 0.4:
+            prog.append({"name": "mid", "nodes": [{"name": "inner", "kind": "graph", "inner": 0},
+                                                  {"name": "m", "kind": "fn", "params": [["i_o", None]], "dataOuts": ["mo"], "body": {"b": "tag", "t": "m"}}], "bound": []})
+        top = [{"name": prog[-1]["name"], "kind": "graph", "inner": len(prog) - 1}] + gated("o_", "y" if rng.random() < 0.5 else "x")
+        if rng.random() < 0.5:
+            top.append({"name": "fin", "kind": "fn", "params": [["o_o", None]], "dataOuts": ["done"], "body": {"b": "tag", "t": "fin"}})
+        rng.shuffle(top)
+        prog.append({"name": "root", "nodes": top, "bound": []})
+        return prog
+
     def cases(self, rng: random.Random, tier: str) -> Iterable[dict]:
         for _ in range(4):
             yield {"program": self._hidden_inner_producer(rng)}
+        for _ in range(4):
+            yield {"program": self._end_gates_two_levels(rng)}
         for _ in range(6):
             yield {"program": self._renamed_lookalike_outputs(rng)}
         forced = [True] * 6
